@@ -29,6 +29,17 @@ def run_wl(toks):
             script += [sq] * int(cnt)
     from localcider.backend.sequence import Sequence as _Seq
     _orig = {m: getattr(_Seq, m) for m in ("full_shuffle", "swapRandChargeRes", "permute_block_swap", "permute_cluster_charges")}
+    proposals = []
+    if not script:
+        # pass-through wrappers that only COUNT the proposals the run asks for: every proposal must show up as one judged step
+        def _mkc(name):
+            def _move(self, *a, **k):
+                r = _orig[name](self, *a, **k)
+                proposals.append(r.seq)
+                return r
+            return _move
+        for m in _orig:
+            setattr(_Seq, m, _mkc(m))
     if script:
         _it = iter(script)
 
@@ -46,6 +57,7 @@ def run_wl(toks):
             if len(toks) > 11 and toks[11] == "second":
                 # the run under test is the SECOND run() of the same machine: it must start from g = 0, H = 0, f = e again
                 m.run()       # (its output files stay in the directory: the second run's files must describe the second run only)
+                del proposals[:]
             real_moves.RecordingRandom.TAPE = []
             ret = m.run()
         files = {}
@@ -58,7 +70,7 @@ def run_wl(toks):
                     "ntarget": int(m.nbins_target), "nflatchk": int(m.nflatchk), "flatcrit": float(m.flatcrit),
                     "convergence": float(m.convergence), "bincts": [float(x) for x in m.getBinCenters()]},
             "start": m._verif_start, "trace": trace, "ret": [[float(x) for x in row] for row in ret], "files": files,
-            "tape": list(real_moves.RecordingRandom.TAPE), "seq": m.seq.seq})
+            "tape": list(real_moves.RecordingRandom.TAPE), "seq": m.seq.seq, "proposals": list(proposals), "scripted": bool(script)})
     finally:
         for m, f in _orig.items():
             setattr(_Seq, m, f)
